@@ -233,3 +233,210 @@ Proof.
       split; [exact I1|]. split; [discriminate|]. split; [|exact AE].
       intros _ s2 ps2 H. apply Others; [|exact H]. intro. subst. congruence.
 Qed.
+
+(* ---------------------------------------------------------------- the groups of an operation *)
+
+Definition gwf (g : list aact) : Prop := g <> [] /\ Forall (fun x => act_root x = group_stack g) g.
+
+Lemma groups_spec_len n : forall xs, length xs <= n -> concat (groups xs) = xs /\ Forall gwf (groups xs).
+Proof.
+  induction n as [|n IH]; intros xs L.
+  - destruct xs; [|cbn in L; lia]. split; [reflexivity|constructor].
+  - destruct xs as [|x rest]; [split; [reflexivity|constructor]|]. cbn [length] in L.
+    assert (Single : forall y, concat ([y] :: groups rest) = y :: rest /\ Forall gwf ([y] :: groups rest)).
+    { intro y. destruct (IH rest) as [C F]; [lia|]. split.
+      - cbn [concat app]. rewrite C. reflexivity.
+      - constructor; [|exact F]. split; [discriminate|]. constructor; [reflexivity|constructor]. }
+    destruct x as [s n0 v f r|s n0 v f|s n0 t f v|s n0 t f]; cbn [groups]; try apply Single.
+    destruct rest as [|y rest']; [apply (Single (ASetDecl s n0 v f r))|].
+    destruct y as [s' n' v' f' r'|s' n' v' f'|s' n' t' f' v'|s' n' t' f']; try apply (Single (ASetDecl s n0 v f r)).
+    destruct (str_eqb s s' && str_eqb n0 n' && str_eqb f f' && str_eqb v v') eqn:E;
+      [|apply (Single (ASetDecl s n0 v f r))].
+    apply andb_true_iff in E. destruct E as [E _]. apply andb_true_iff in E. destruct E as [E _].
+    apply andb_true_iff in E. destruct E as [E _]. apply str_eqb_eq in E. subst s'.
+    cbn [length] in L. destruct (IH rest') as [C F]; [lia|]. split.
+    + cbn [concat app]. rewrite C. reflexivity.
+    + constructor; [|exact F]. split; [discriminate|]. repeat constructor.
+Qed.
+
+Lemma groups_spec xs : concat (groups xs) = xs /\ Forall gwf (groups xs).
+Proof. apply (groups_spec_len (length xs)). lia. Qed.
+
+Lemma aeq_path a b : aeq a b -> apath a = apath b.
+Proof. intros [H _]. exact H. Qed.
+
+Lemma run_groups_ok tick loc fl gs : forall w m crash w' m' r,
+  clock_strict tick -> INV w -> mem_ok w fl m ->
+  acts_ok (view (w_db w)) (concat gs) -> Forall (group_wf fl) gs ->
+  run_groups tick repaired loc fl w m gs crash = (w', m', r) ->
+  INV w' /\ r <> GRaised /\ (r = GOk -> mem_ok w' fl m') /\ wpath w' = wpath w.
+Proof.
+  induction gs as [|g rest IH]; intros w m crash w' m' r CS I M OK F E; cbn [run_groups] in E.
+  - inversion E. subst. split; [exact I|]. split; [discriminate|]. split; [auto|reflexivity].
+  - cbn [concat] in OK. apply acts_ok_app in OK. destruct OK as [OKg OKr]. inversion F as [|? ? Fg Fr]. subst.
+    assert (Step : forall die crash',
+      (let '(w1, m1, r1) := run_group tick repaired loc fl w m g die in
+       match r1 with GOk => run_groups tick repaired loc fl w1 m1 rest crash' | _ => (w1, m1, r1) end) = (w', m', r) ->
+      INV w' /\ r <> GRaised /\ (r = GOk -> mem_ok w' fl m') /\ wpath w' = wpath w).
+    { intros die crash' E'. destruct (run_group tick repaired loc fl w m g die) as [[w1 m1] r1] eqn:Eg.
+      destruct (run_group_ok tick loc fl w m g die w1 m1 r1 CS I M OKg Fg Eg) as [I1 [NR [M1 AE]]].
+      assert (P1 : wpath w1 = wpath w).
+      { unfold wpath. rewrite <- !apath_view, (aeq_path _ _ AE), apath_aapply_all. reflexivity. }
+      destruct r1.
+      - destruct (IH w1 m1 crash' w' m' r CS I1 (M1 eq_refl)) as [A [B [C D]]]; auto.
+        + eapply acts_ok_aeq; [apply aeq_sym; exact AE|exact OKr].
+        + split; [exact A|]. split; [exact B|]. split; [exact C|congruence].
+      - inversion E'. subst. split; [exact I1|]. split; [discriminate|]. split; [discriminate|exact P1].
+      - congruence. }
+    destruct crash as [[[|k] [|]]|].
+    + apply (Step true None E).
+    + inversion E. subst. split; [exact I|]. split; [discriminate|]. split; [discriminate|reflexivity].
+    + apply (Step false (Some (k, true)) E).
+    + apply (Step false (Some (k, false)) E).
+    + apply (Step false None E).
+Qed.
+
+Lemma run_op_ok tick loc fl w m x crash w' m' oc :
+  clock_strict tick -> INV w -> mem_ok w fl m ->
+  run_op tick repaired loc fl w m x crash = (w', m', oc) ->
+  INV w' /\ (oc <> OCrashed -> mem_ok w' fl m') /\ wpath w' = wpath w.
+Proof.
+  intros CS I M E. unfold run_op in E.
+  destruct (str_eqb_spec (o_flavor (op_opts x)) fl) as [Efl|N]; cbn [negb] in E.
+  2:{ inversion E. subst. auto. }
+  destruct (decide false (view (w_db w)) x) as [acts|e] eqn:Ed.
+  2:{ inversion E. subst. auto. }
+  destruct (run_groups tick repaired loc fl w m (groups acts) crash) as [[w1 m1] r] eqn:Eg.
+  inversion E. subst w' m' oc. clear E.
+  destruct (groups_spec acts) as [C G].
+  assert (FL : Forall (fun x0 => act_flavor x0 = fl) acts).
+  { pose proof (decide_scope _ _ _ _ Ed) as S. apply Forall_forall. intros y Hy.
+    pose proof (proj1 (Forall_forall _ _) S y Hy) as Hn. unfold act_flavor. rewrite Hn. exact Efl. }
+  assert (GW : Forall (group_wf fl) (groups acts)).
+  { apply Forall_forall. intros g Hg. destruct (proj1 (Forall_forall _ _) G g Hg) as [G1 G2].
+    split; [exact G1|]. apply Forall_forall. intros y Hy. split.
+    - exact (proj1 (Forall_forall _ _) G2 y Hy).
+    - apply (proj1 (Forall_forall _ _) FL y). rewrite <- C. apply in_concat. exists g. auto. }
+  destruct (run_groups_ok tick loc fl (groups acts) w m crash w1 m1 r CS I M) as [I1 [NR [M1 P1]]]; auto.
+  - rewrite C. apply (decide_acts_ok _ _ _ _ Ed).
+  - split; [exact I1|]. split; [|exact P1]. intro H. apply M1. destruct r; congruence.
+Qed.
+
+Lemma delete_cache_mem_ok w fl m l s f : mem_ok w fl m -> mem_ok (delete_cache w l s f) fl m.
+Proof.
+  intros M s' ps H. destruct (M s' ps H) as [[A B] [C D]]. split; [split|split]; auto.
+  intros l' f' mm p H1 H2. unfold pk_get, delete_cache in H2. cbn [w_pickles] in H2.
+  rewrite (glookup_gremove pkey_eqb pkey_eqb_eq) in H2.
+  destruct (pkey_eqb (l', s', f') (l, s, f)); [discriminate|]. exact (B l' f' mm p H1 H2).
+Qed.
+
+Lemma run_pops_ok tick loc fl xs : forall w m crash w' m' ocs,
+  clock_strict tick -> INV w -> mem_ok w fl m ->
+  run_pops tick repaired loc fl w m xs crash = (w', m', ocs) ->
+  INV w' /\ wpath w' = wpath w.
+Proof.
+  induction xs as [|x rest IH]; intros w m crash w' m' ocs CS I M E; cbn [run_pops] in E.
+  - inversion E. subst. auto.
+  - destruct (run_pop tick repaired loc fl w m x
+                (match crash with Some (0, g, b) => Some (g, b) | _ => None end)) as [[w1 m1] oc] eqn:Ep.
+    assert (S1 : INV w1 /\ (oc <> OCrashed -> mem_ok w1 fl m1) /\ wpath w1 = wpath w).
+    { destruct x as [o|l s f]; cbn [run_pop] in Ep.
+      - eapply run_op_ok; eassumption.
+      - inversion Ep. subst. split; [apply delete_cache_inv; exact I|]. split; [|reflexivity].
+        intros _. apply delete_cache_mem_ok. exact M. }
+    destruct S1 as [I1 [M1 P1]].
+    destruct oc; try (
+      destruct (run_pops tick repaired loc fl w1 m1 rest
+                  (match crash with Some (S i, g, b) => Some (i, g, b) | _ => None end)) as [[w2 m2] ocs2] eqn:Er;
+      inversion E; subst;
+      destruct (IH w1 m1 _ w' m' ocs2 CS I1 (M1 ltac:(discriminate)) Er) as [A B];
+      split; [exact A|congruence]).
+    inversion E. subst. auto.
+Qed.
+
+(* ---------------------------------------------------------------- a whole process, reachable worlds *)
+
+Lemma load_ok tick w loc fl w1 m :
+  clock_strict tick -> INV w -> NoDup (wpath w) -> load tick repaired w loc fl = (w1, m) ->
+  INV w1 /\ w_db w1 = w_db w /\ map fst m = wpath w /\
+  (forall s ps, alookup s m = Some ps ->
+     ps_ok w1 s ps /\ (forall f, In f (fallbacks fl) -> alookup f (ps_lookup ps) <> None)).
+Proof.
+  intros CS I ND E. unfold load in E. cbn [v_init repaired needed] in E.
+  destruct (load_stacks_ok tick loc (fallbacks fl) (wpath w) w w1 m CS I ND E) as [A [B [C [_ D]]]]. auto.
+Qed.
+
+Lemma run_proc_ok tick w p : clock_strict tick -> INV w -> NoDup (wpath w) ->
+  INV (run_proc tick repaired w p) /\ wpath (run_proc tick repaired w p) = wpath w.
+Proof.
+  intros CS I ND. unfold run_proc, run_proc_full.
+  destruct (load tick repaired w (p_loc p) (p_flavor p)) as [w1 m] eqn:El.
+  destruct (load_ok tick w _ _ w1 m CS I ND El) as [I1 [D1 [K1 L1]]].
+  destruct (run_pops tick repaired (p_loc p) (p_flavor p) w1 m (p_ops p) (p_crash p)) as [[w2 m2] ocs] eqn:Er.
+  cbn [fst].
+  assert (M1 : mem_ok w1 (p_flavor p) m).
+  { intros s ps H. destruct (L1 s ps H) as [X Y]. split; [exact X|]. split.
+    - rewrite <- has_stack_path. apply mem_str_In. rewrite D1. fold (wpath w). rewrite <- K1.
+      change (In s (akeys m)). apply alookup_not_None_In. congruence.
+    - apply Y. left. reflexivity. }
+  destruct (run_pops_ok tick _ _ _ w1 m _ w2 m2 ocs CS I1 M1 Er) as [I2 P2].
+  split; [exact I2|]. rewrite P2. unfold wpath. rewrite D1. reflexivity.
+Qed.
+
+Lemma init_path path : wpath (init_world path) = path.
+Proof. unfold wpath, init_world, empty_db. cbn [w_db]. rewrite map_map. cbn. apply map_id. Qed.
+
+Lemma reachable_inv tick w : clock_strict tick -> reachable tick repaired w -> INV w /\ NoDup (wpath w).
+Proof.
+  intros CS R. induction R as [path ND|w p R [I ND]|w loc s fl R [I ND]].
+  - split; [apply init_INV|]. rewrite init_path. exact ND.
+  - destruct (run_proc_ok tick w p CS I ND) as [A B]. split; [exact A|]. rewrite B. exact ND.
+  - split; [apply delete_cache_inv; exact I|exact ND].
+Qed.
+
+(* ---------------------------------------------------------------- the answers *)
+
+Lemma q_eval_ext dl dl' tl tl' path q :
+  (forall s n v, dl s n v (q_flavor q) = dl' s n v (q_flavor q)) ->
+  (forall s n t, tl s n t (q_flavor q) = tl' s n t (q_flavor q)) ->
+  q_eval dl tl path q = q_eval dl' tl' path q.
+Proof.
+  intros HD HT.
+  assert (VT : forall s n t, vis_tag dl tl s n t (q_flavor q) = vis_tag dl' tl' s n t (q_flavor q)).
+  { intros. unfold vis_tag. rewrite HT. destruct (tl' s n t (q_flavor q)); [|reflexivity]. rewrite HD. reflexivity. }
+  destruct q as [s n v f|s n v f|s n v t f|s n t f|n v f|n t f]; cbn [q_flavor] in *; cbn [q_eval].
+  - rewrite HD. reflexivity.
+  - rewrite HD. reflexivity.
+  - rewrite HD, HT. reflexivity.
+  - rewrite VT. reflexivity.
+  - f_equal. induction path as [|s r IH]; cbn [first_decl]; [reflexivity|]. rewrite HD, IH. reflexivity.
+  - f_equal. induction path as [|s r IH]; cbn [first_tagged]; [reflexivity|]. rewrite VT, IH. reflexivity.
+Qed.
+
+Lemma coherent_load tick w loc fl q :
+  clock_strict tick -> reachable tick repaired w -> In (q_flavor q) (fallbacks fl) ->
+  q_cache (snd (load tick repaired w loc fl)) q = q_db w q.
+Proof.
+  intros CS R Hq. destruct (reachable_inv tick w CS R) as [I ND].
+  destruct (load tick repaired w loc fl) as [w1 m] eqn:El. cbn [snd].
+  destruct (load_ok tick w loc fl w1 m CS I ND El) as [I1 [D1 [K1 L1]]].
+  unfold q_cache, q_db. rewrite K1. fold (wpath w).
+  assert (InP : forall s, In s (wpath w) -> exists ps fd, alookup s m = Some ps /\
+             alookup (q_flavor q) (ps_lookup ps) = Some fd /\ agree fd (w_db w) s (q_flavor q)).
+  { intros s Hs. rewrite <- K1 in Hs. apply In_akeys_alookup in Hs.
+    destruct (alookup s m) as [ps|] eqn:Es; [|congruence]. destruct (L1 s ps Es) as [[A _] Y].
+    specialize (Y _ Hq). destruct (alookup (q_flavor q) (ps_lookup ps)) as [fd|] eqn:Ef; [|congruence].
+    exists ps, fd. split; [reflexivity|]. split; [exact Ef|]. rewrite <- D1. exact (A _ _ Ef). }
+  assert (OutP : forall s, ~ In s (wpath w) -> alookup s m = None /\ has_stack (w_db w) s = false).
+  { intros s Hs. split.
+    - destruct (alookup s m) eqn:Es; [|reflexivity]. exfalso. apply Hs. rewrite <- K1.
+      change (In s (akeys m)). apply alookup_not_None_In. congruence.
+    - rewrite <- has_stack_path. apply mem_str_not_In. exact Hs. }
+  apply q_eval_ext.
+  - intros s n v. unfold mem_decl. destruct (in_dec str_eq_dec s (wpath w)) as [Hs|Hs].
+    + destruct (InP s Hs) as [ps [fd [E1 [E2 A]]]]. rewrite E1, E2. apply (A n).
+    + destruct (OutP s Hs) as [E1 E2]. rewrite E1. symmetry. apply db_decl_no_stack. exact E2.
+  - intros s n t. unfold mem_tag. destruct (in_dec str_eq_dec s (wpath w)) as [Hs|Hs].
+    + destruct (InP s Hs) as [ps [fd [E1 [E2 A]]]]. rewrite E1, E2. apply (A n).
+    + destruct (OutP s Hs) as [E1 E2]. rewrite E1. symmetry. apply db_tag_no_stack. exact E2.
+Qed.
